@@ -67,6 +67,9 @@ func (a *ipI1) callee(com *ssa.CallCommon) *ssa.Function {
 	if a.local(g) {
 		return g
 	}
+	if lit, isFn := com.Value.(*ssa.Function); isFn && lit == g && g.Synthetic == "" && g.Parent() != nil && pkgRel(g) == a.pkg {
+		return g // a function literal that captures nothing, called through the value that holds it (ip_j5)
+	}
 	if _, isMC := com.Value.(*ssa.MakeClosure); !isMC {
 		return nil
 	}
